@@ -50,6 +50,15 @@ func (b *backend) pathRestore() *framework.Path {
 }
 
 func (b *backend) pathRestoreUpdate(ctx context.Context, req *logical.Request, d *framework.FieldData) (*logical.Response, error) {
+	// RestorePolicy writes the archive and then the policy; do both in one
+	// transaction (when the storage supports it) so that a failure between
+	// the two writes cannot pair the existing key with the backup's archive.
+	txRollback, err := logical.StartTxStorage(ctx, req)
+	if err != nil {
+		return nil, err
+	}
+	defer txRollback()
+
 	backupB64 := d.Get("backup").(string)
 	force := d.Get("force").(bool)
 	if backupB64 == "" {
@@ -63,7 +72,15 @@ func (b *backend) pathRestoreUpdate(ctx context.Context, req *logical.Request, d
 		return nil, ErrInvalidKeyName
 	}
 
-	return nil, b.lm.RestorePolicy(ctx, req.Storage, keyName, backupB64, force)
+	if err := b.lm.RestorePolicy(ctx, req.Storage, keyName, backupB64, force); err != nil {
+		return nil, err
+	}
+
+	if err := logical.EndTxStorage(ctx, req); err != nil {
+		return nil, err
+	}
+
+	return nil, nil
 }
 
 const (
